@@ -5,8 +5,7 @@ Status: bounded run-time contracts only (props/bounded_C11.py) until the proof o
 from vf.helpers import bounded_tasks
 
 META = dict(
-    level='exploration',
-    expects_obligations=False,
+    level='other',
     explanation='Run-time contracts on the real functions over the bounded domain stated per driver (bounded stand-in; nothing proved).',
     trusted_base=['oracles of props/bounded_C11.py (independent of dadi: exact rationals, mpmath, dense linear algebra, explicit index loops)'],
     rule='cases enumerated or sampled as stated in each driver\'s bound; a case is non-trivial unless the driver marks it degenerate; distinct by its key',
@@ -14,13 +13,14 @@ META = dict(
 
 
 def tasks(tier):
-    return bounded_tasks('C11', tier)
+    from vf.core import Task
+    return [Task('props.wire:run', name='C11/wire.c11_ll_per_bin', fname='c11_ll_per_bin', timeout=300), Task('props.wire:run', name='C11/wire.c11_ll_wiring', fname='c11_ll_wiring', timeout=300), Task('props.wire:run', name='C11/wire.c11_residuals', fname='c11_residuals', timeout=300)] + bounded_tasks('C11', tier)
 
 
 MANIFEST_ENTRY = dict(
-    category='exploration',
+    category='other',
     engine='bounded',
-    technique='bounded run-time contracts on the real functions with independent oracles (stand-in for the contract proofs, never counted as proved)',
+    technique='sidecar contracts on the real functions: wiring / closed-form obligations from the AST discharged by z3 and the ring normaliser where the functions are within reach; bounded run-time contracts with independent oracles for the rest (never counted as proved)',
     text='Poisson / multinomial likelihoods, optimal scaling, auto-folding and residuals against 40-digit mpmath sums over jointly unmasked entries.',
     note='bounded: see coverage.bounded.drivers[].bound in the evidence file for the exact domain of every driver',
 )
